@@ -147,6 +147,17 @@ CHECKS = {
              "the IR DAG of the Au expression equals that of the raw operator or std function compiled next to it.  int_pow's value is not decided.",
         design_ref="3.14", technique="static_assert / compile-fail witness programs against the exponent model + DAG equality of LLVM IR with raw operators",
         note=TRUST_W + "; " + TRUST_I, engine="W+I"),
+    "C16": dict(
+        category="exploration",
+        text="The library's constants (discovered from au/constants/, units read out of the tree) and generated constants (compound, scaled, "
+             "huge-prime, pi, unitless) x target units whose exact ratio straddles every type's maximum (and rationals, pi, 10^+-30, 10^309, "
+             "2^-200) x 11 types: can_store_value_in<T>(u) is extracted from clang's constant evaluator and must equal exact representability; "
+             "iff representable, in<T>/as<T>/implicit conversion compile and give exactly the model value (4 ulp window for floating T), otherwise "
+             "each form is a compile-fail witness.  Products / quotients / powers with magnitudes, units, makers, singular names and other "
+             "constants have the model unit; (I) multiplying or dividing numbers and quantities by a constant is the identity dataflow on the "
+             "stored number; forbidden forms (C / int, C / integral quantity, with points) are witnesses.",
+        design_ref="3.16", technique="constant extraction + static_assert / compile-fail witness programs against exact arithmetic + identity-dataflow check on LLVM IR",
+        note=TRUST_W + "; " + TRUST_I, engine="W+I"),
     "C17": dict(
         category="exploration",
         text="(W) per (rep, period): as_quantity's unit exponents == seconds x period, rep and count kept; as_chrono_duration and the implicit "
